@@ -182,6 +182,18 @@ EXTRA8 = {
 }
 for _pid, _t in EXTRA8.items():
     EXTRA[_pid] = EXTRA.get(_pid, '') + ' ' + _t
+EXTRA9 = {
+ 'C04': 'A Getter over a map lens (absent key, nil map) and over a Setter: Put changes nothing.',
+ 'C06': 'Degenerate parameters (interval / frequency 0 and negative, Take n <= 0) through both packages.',
+ 'C07': 'Callbacks that end their goroutine in Map, FMap, Emit and Unfold.',
+ 'C09': 'Workers all leaving their call at the same moment with 0-2 free output slots, then close and cancel with nobody receiving.',
+ 'C12': 'Join over an already-closed input and an open one, 60 000 rounds on the real scheduler: the output may not report closed.',
+ 'C13': 'Intervals of 7 ns to 100 us that the rate does not divide, 6000 batches; intervals of zero and below.',
+ 'C17': 'Strings that share storage (prefixes, suffixes, empty slices of one buffer, and their clones).',
+ 'C20': 'First evaluations of a freshly composed function from 6 goroutines at once, many fresh pipelines per arity.',
+}
+for _pid, _t in EXTRA9.items():
+    EXTRA[_pid] = EXTRA.get(_pid, '') + ' ' + _t
 for _pid, _t in EXTRA.items():
     TEXT[_pid]['text'] += ' ' + _t
 TEXT['C09']['note'] = 'Fail-fast (Lift) mode is exercised at scale only for closure, no-leak and "errors only for failing elements" (which workers fail first is not determined); the multiset verdict is for Pure and Try modes. Distinct output orders are counted per child process.'
